@@ -174,6 +174,16 @@ func (u *Upstream) closeWithErrorAndState(ctx context.Context, causeError error,
 			CloseSession: opt.CloseSession,
 		},
 	})
+	// クローズ要求の送信に失敗した場合でも、ストリームが閉じられたことを通知します。
+	defer func() {
+		u.eventDispatcher.addHandler(func() {
+			u.Config.ClosedEventHandler.OnUpstreamClosed(&UpstreamClosedEvent{
+				Config: u.Config,
+				State:  *u.State(),
+				Err:    causeError,
+			})
+		})
+	}()
 	if err != nil {
 		return err
 	}
@@ -184,15 +194,6 @@ func (u *Upstream) closeWithErrorAndState(ctx context.Context, causeError error,
 			ReceivedMessage: resp,
 		}
 	}
-	defer func() {
-		u.eventDispatcher.addHandler(func() {
-			u.Config.ClosedEventHandler.OnUpstreamClosed(&UpstreamClosedEvent{
-				Config: u.Config,
-				State:  *u.State(),
-				Err:    causeError,
-			})
-		})
-	}()
 	return nil
 }
 
